@@ -136,25 +136,34 @@ func c54(r *vkit.Run) {
 	rule := func(cond, cmd string) string {
 		return fmt.Sprintf(`{"Cond":"%s","Action":{"Cmd":"%s","Quality":5,"FlushSize":512}}`, cond, cmd)
 	}
+	// interference family (c54abort.go): own gated backend, products with three compression levels,
+	// clusters with CancelOnClientClose on (gzc, brc) and off (gzn, brn)
+	xbe, err := c54XNewBackend()
+	if err != nil {
+		r.Inconclusive(err.Error())
+		return
+	}
+	defer xbe.ln.Close()
+	xRules, xClusters := c54XConf(xbe)
 	srv, err := e2e.Start(&e2e.Options{
 		Modules: []string{"mod_compress"},
 		Files: map[string]string{
 			// p_gb / p_bg: both rules match every request, the first one decides;
 			// p_mix: the GZIP rule matches paths ending in "/gz", everything else gets BROTLI
-			"mod_compress/compress_rule.data": fmt.Sprintf(`{"Version":"v1","Config":{"p_gz":[%s],"p_br":[%s],"p_gb":[%s,%s],"p_bg":[%s,%s],"p_mix":[%s,%s]}}`,
+			"mod_compress/compress_rule.data": fmt.Sprintf(`{"Version":"v1","Config":{"p_gz":[%s],"p_br":[%s],"p_gb":[%s,%s],"p_bg":[%s,%s],"p_mix":[%s,%s]`+xRules+`}}`,
 				rule("default_t()", "GZIP"), rule("default_t()", "BROTLI"),
 				rule("default_t()", "GZIP"), rule("default_t()", "BROTLI"),
 				rule("default_t()", "BROTLI"), rule("default_t()", "GZIP"),
 				rule(`req_path_suffix_in(\"/gz\", false)`, "GZIP"), rule("default_t()", "BROTLI")),
 		},
-		Clusters: []e2e.Cluster{
-			{Name: "gz", Hosts: []string{"gz.c54.test"}, SubClusters: sub},
-			{Name: "br", Hosts: []string{"br.c54.test"}, SubClusters: sub},
-			{Name: "none", Hosts: []string{"none.c54.test"}, SubClusters: sub},
-			{Name: "gb", Hosts: []string{"gb.c54.test"}, SubClusters: sub},
-			{Name: "bg", Hosts: []string{"bg.c54.test"}, SubClusters: sub},
-			{Name: "mix", Hosts: []string{"mix.c54.test"}, SubClusters: sub},
-		}})
+		Clusters: append(xClusters,
+			e2e.Cluster{Name: "gz", Hosts: []string{"gz.c54.test"}, SubClusters: sub},
+			e2e.Cluster{Name: "br", Hosts: []string{"br.c54.test"}, SubClusters: sub},
+			e2e.Cluster{Name: "none", Hosts: []string{"none.c54.test"}, SubClusters: sub},
+			e2e.Cluster{Name: "gb", Hosts: []string{"gb.c54.test"}, SubClusters: sub},
+			e2e.Cluster{Name: "bg", Hosts: []string{"bg.c54.test"}, SubClusters: sub},
+			e2e.Cluster{Name: "mix", Hosts: []string{"mix.c54.test"}, SubClusters: sub},
+		)})
 	if err != nil {
 		r.Inconclusive("server start: " + err.Error())
 		return
@@ -162,17 +171,30 @@ func c54(r *vkit.Run) {
 	defer srv.Close()
 
 	var cases []*c54Case
+	var rounds []*c54XRound
 	if r.Replay != "" {
 		var w struct {
-			Case c54Case `json:"case"`
+			Case   *c54Case   `json:"case"`
+			XRound *c54XRound `json:"xround"`
 		}
 		if err := r.LoadReplay(&w); err != nil {
 			r.Inconclusive(err.Error())
 			return
 		}
-		cases = append(cases, &w.Case)
+		if w.Case != nil {
+			cases = append(cases, w.Case)
+		}
+		if w.XRound != nil {
+			// an interference is a matter of scheduling: the round is repeated
+			for i := 0; i < 40; i++ {
+				rounds = append(rounds, w.XRound)
+			}
+		}
 		r.SetMinDistinct(0)
 	} else {
+		for i, nr := 0, r.N(90, 1500); i < nr; i++ {
+			rounds = append(rounds, c54XGen(r.Rng("xround", i), i))
+		}
 		n := 0
 		add := func(c c54Case) {
 			c.ID = fmt.Sprintf("q%d", n)
@@ -331,7 +353,12 @@ func c54(r *vkit.Run) {
 			r.Sample(map[string]interface{}{"case": c, "content_encoding": ce, "wire_body_len": len(resp.Body), "backend_body_len": len(backendBody)})
 		}
 	}
+	// interference family: rounds of aborted and well-behaved compressed responses
+	fired0 := c54XCancelFired()
+	xenv := &c54XEnv{r: r, addr: srv.HTTPAddr, be: xbe}
+	vkit.Parallel(len(rounds), 12, func(i int) { xenv.run(rounds[i]) })
 	if r.Replay == "" {
+		c54XFinish(r, c54XCancelFired()-fired0)
 		c54AEFinish(r)
 	}
 	if r.Replay == "" && (r.Counter("compressed_gzip") == 0 || r.Counter("compressed_br") == 0 || r.Counter("passed_through") == 0) {
